@@ -76,11 +76,11 @@ fn enumerate(ctx: &Ctx, st: &Stats) {
             }
             continue;
         }
-        if ctx.quick() && k != kp && kp > 2100 && !LARGE_EXTRA.contains(&kp) {
-            continue; // quick tier: the minimum-K partner only for K' <= 2100 and the large ladder
+        if ctx.quick() && k != kp && kp > 1100 && !LARGE_EXTRA.contains(&kp) {
+            continue; // quick tier: the minimum-K partner only for K' <= 1100 and the large ladder
         }
         // dense back-end: quick K'<=1100; thorough every K' (for K'>12000 only K=K', data pos: 59 s per solve at 56403)
-        let dense = if ctx.quick() { kp <= 1100 } else { kp <= 12000 || k == kp };
+        let dense = if ctx.quick() { kp <= 700 } else { kp <= 12000 || k == kp };
         work.push((k, dense, "pos"));
         if (ctx.thorough() && kp <= 12000) || kp <= 300 {
             work.push((k, true, "ff"));
@@ -118,7 +118,7 @@ pub fn run(ctx: &Ctx) -> i32 {
     let full = ctx.thorough();
     finish(ctx, &st, Finish {
         level: "exploration",
-        rule: format!("complete product over all 477 K' x {{K=K', K=smallest K mapping to K' (quick tier: only for K'<=2100 and the large ladder)}} ({} block sizes in the thorough tier) x {{direct solve, plan generated then replayed}} x {{sparse back-end{}}}, T=2, data pos{}; each variant must build without panic, all variants of a size must give identical intermediate symbols, and these must satisfy every LDPC, HDPC and LT relation (padding rows included) of the reference; repeated in the debug-assertions build for K'<={} (counters checked/...). distinct_nontrivial = (size, data) combinations certified.", all_sizes_with_minpad().len(), if full { ", dense back-end for every K' (both partners up to K'=12000)}} for every size" } else { "}} for every size, dense back-end for K'<=1100" }, if full { " and ff" } else { " (ff for K'<=300)" }, if full { 1100 } else { 260 }),
+        rule: format!("complete product over all 477 K' x {{K=K', K=smallest K mapping to K' (quick tier: only for K'<=1100 and the large ladder)}} ({} block sizes in the thorough tier) x {{direct solve, plan generated then replayed}} x {{sparse back-end{}}}, T=2, data pos{}; each variant must build without panic, all variants of a size must give identical intermediate symbols, and these must satisfy every LDPC, HDPC and LT relation (padding rows included) of the reference; repeated in the debug-assertions build for K'<={} (counters checked/...). distinct_nontrivial = (size, data) combinations certified.", all_sizes_with_minpad().len(), if full { ", dense back-end for every K' (both partners up to K'=12000)}} for every size" } else { "}} for every size, dense back-end for K'<=700" }, if full { " and ff" } else { " (ff for K'<=300)" }, if full { 1100 } else { 260 }),
         exhaustive: full,
         assumptions: vec!["reference tables transcribed from the pinned commit".into(), "checked-profile runs stop at K' = 1100 (cubic self-checks)".into()],
         extra: Map::new(),
